@@ -61,8 +61,11 @@
        TreeConstruction with maxDepth / bucket size > 1 are outside the construction model;
      * LC-trees, kernel (KHC) trees, bucket sizes > 1, NearestNeighborModel predictions: exhaustive-
        search monitor only. *)
-From Coq Require Import List ZArith Permutation.
+From Coq Require Import List ZArith QArith Permutation.
 From SharkV Require Import C17Model C17Proofs C17Build C17BuildProofs C17BuildIndepProofs.
+From SharkV Require Import C17Field C17Gen C17Proj C17ProjProofs C17ProjExamples.
+From SharkV Require Import C17ProjBuild C17ProjBuildProofs C17ProjChooseProofs C17ProjBuildExamples.
+From SharkV Require C17GenProofs.
 Import ListNotations.
 Open Scope Z_scope.
 
@@ -178,3 +181,303 @@ Theorem C17_kd_build_hypotheses_satisfiable :
   query data (kd_build data ksort) [9; 0] 3 = [(29, 1%nat); (29, 2%nat); (37, 3%nat)].
 Proof. exact kd_build_example. Qed.
 Print Assumptions C17_kd_build_hypotheses_satisfiable.
+
+(* ======================================================================================================== *)
+(* Extension: projection trees (LCTree, KHCTree) and the query on ANY BinaryTree with a sound bound.
+   Carrier: any ordered field (C17Field.olaws F, a hypothesis); definitions in C17Gen.v / C17Proj.v. *)
+
+(* LCTree / KHCTree::squaredDistanceLowerBound (the walk up the parents with `if (t == p->mp_right) v = -v; if (v > dist)
+   dist = v`, result dist*dist) is a lower bound of the squared distance d2 to every point p of the cell, for every node
+   type whose funct is 1-Lipschitz w.r.t. d2 (squared form, Lip) along the path *)
+Theorem C17_proj_cell_lower_bound :
+  forall (A : Type) (F : fops A), olaws F ->
+  forall (N : Type) (funct : N -> apoint A -> A) (thr : N -> A) (d2 : apoint A -> apoint A -> A)
+         (dom : apoint A -> Prop) (path : list (ppstep N)) (p q : apoint A),
+  dom p -> dom q -> oleb F (o0 F) (d2 p q) = true ->
+  path_Lip A F N funct d2 dom path -> in_pcell A F N funct thr path p ->
+  oleb F (plb A F N funct thr path q) (d2 p q) = true.
+Proof. exact pcell_lower_bound. Qed.
+Print Assumptions C17_proj_cell_lower_bound.
+
+(* LCTree::funct = inner_prod(m_normal, .) with norm_sqr(m_normal) <= 1 is 1-Lipschitz for the Euclidean distance
+   (Cauchy-Schwarz, proved for lists over any ordered field) *)
+Theorem C17_lc_funct_lipschitz :
+  forall (A : Type) (F : fops A), olaws F -> forall (dim : nat) (nd : lcnode A),
+  lc_unitb A F nd = true -> Lip A F (lcnode A) (lc_funct A F) (edist2 F) (dimdom A dim) nd.
+Proof. exact lc_Lip. Qed.
+Print Assumptions C17_lc_funct_lipschitz.
+
+(* KHCTree::funct = (k(positive, .) - k(negative, .)) * m_normalInvNorm is 1-Lipschitz for the feature-space distance
+   k(x,x) - 2k(x,y) + k(y,y) of ANY kernel that is positive semi-definite in the sense KPos / KCS (non-negative squared
+   feature distances, Cauchy-Schwarz for feature differences), if m_normalInvNorm^2 * |phi(pos) - phi(neg)|^2 <= 1 *)
+Theorem C17_khc_funct_lipschitz :
+  forall (A : Type) (F : fops A), olaws F ->
+  forall (k : apoint A -> apoint A -> A) (dom : apoint A -> Prop) (data : list (apoint A)) (nd : khcnode A),
+  KPos A F k dom -> KCS A F k dom ->
+  dom (ptA A data (kh_pos A nd)) -> dom (ptA A data (kh_neg A nd)) ->
+  khc_unitb A F k data nd = true ->
+  Lip A F (khcnode A) (khc_funct A F k data) (kd2 A F k) dom nd.
+Proof. exact khc_Lip. Qed.
+Print Assumptions C17_khc_funct_lipschitz.
+
+(* the linear kernel satisfies the kernel hypotheses on points of one dimension *)
+Theorem C17_linear_kernel_psd :
+  forall (A : Type) (F : fops A), olaws F -> forall dim : nat,
+  KPos A F (lin_k A F) (dimdom A dim) /\ KCS A F (lin_k A F) (dimdom A dim).
+Proof. intros A F L dim. split; [exact (lin_KPos A F L dim) | exact (lin_KCS A F L dim)]. Qed.
+Print Assumptions C17_linear_kernel_psd.
+
+(* one call of IterativeNNQuery::next() over an arbitrary ordered carrier: C17_next_invariant generalised; the only
+   facts about the tree are in the invariant (Sound: every node bound <= distance of every point below, leaf key =
+   distance of its points) *)
+Theorem C17_gen_next_invariant :
+  forall (A : Type) (leb : A -> A -> bool),
+  (forall a b : A, leb a b = true \/ leb b a = true) ->
+  (forall a b c : A, leb a b = true -> leb b c = true -> leb a c = true) ->
+  forall (dist : nat -> A) (s : gstate A),
+  C17GenProofs.Inv A leb dist s -> C17GenProofs.pending A s <> nil ->
+  exists (d : A) (i : nat) (s' : gstate A),
+    gnext A leb s = Some (d, i, s') /\ C17GenProofs.Inv A leb dist s' /\ dist i = d /\
+    Permutation (C17GenProofs.pending A s) (i :: C17GenProofs.pending A s') /\
+    (forall j : nat, In j (C17GenProofs.pending A s) -> leb d (dist j) = true).
+Proof. exact C17GenProofs.next_spec. Qed.
+Print Assumptions C17_gen_next_invariant.
+
+(* the query on ANY BinaryTree whose nodes' funct is 1-Lipschitz (PWF: cells, bucket size one, Lip): the k nearest
+   neighbours w.r.t. the tree's metric d2 *)
+Theorem C17_proj_query_k_smallest_dataset :
+  forall (A : Type) (F : fops A), olaws F ->
+  forall (N : Type) (funct : N -> apoint A -> A) (thr : N -> A) (d2 : apoint A -> apoint A -> A)
+         (dom : apoint A -> Prop) (data : list (apoint A)),
+  (forall p q : apoint A, dom p -> dom q -> oleb F (o0 F) (d2 p q) = true) ->
+  forall (t : ptree N) (q : apoint A) (k : nat),
+  dom q -> PWF A F N funct thr d2 dom data nil t ->
+  Permutation (pindices N t) (seq 0 (length data)) -> (k <= length data)%nat ->
+  let res := pquery A F N funct thr (pdistq A d2 data q) t q k in
+  length res = k /\
+  NoDup (map snd res) /\
+  (forall (d : A) (i : nat), In (d, i) res -> (i < length data)%nat /\ d = d2 (ptA A data i) q) /\
+  C17GenProofs.gdsorted A (oleb F) (map fst res) /\
+  (forall j : nat, (j < length data)%nat -> ~ In j (map snd res) ->
+   forall d : A, In d (map fst res) -> oleb F d (d2 (ptA A data j) q) = true).
+Proof. exact pquery_k_smallest_dataset. Qed.
+Print Assumptions C17_proj_query_k_smallest_dataset.
+
+(* LC-tree: every tree that passes the executable checks pwf_treeb (left funct <= threshold <= right funct, leaves hold
+   copies of one point) and lc_unitb (norm_sqr(m_normal) <= 1), whose leaves partition 0..n-1: k nearest, Euclidean *)
+Theorem C17_lc_query_k_nearest :
+  forall (A : Type) (F : fops A), olaws F ->
+  forall (dim : nat) (data : list (apoint A)) (t : ptree (lcnode A)) (q : list A) (k : nat),
+  uniformA A dim data -> length q = dim ->
+  pwf_treeb A F (lcnode A) (lc_funct A F) (lc_thr A) data t = true ->
+  pnodes_forallb (lcnode A) (lc_unitb A F) t = true ->
+  Permutation (pindices (lcnode A) t) (seq 0 (length data)) -> (k <= length data)%nat ->
+  let res := lc_query A F data t q k in
+  length res = k /\
+  NoDup (map snd res) /\
+  (forall (d : A) (i : nat), In (d, i) res -> (i < length data)%nat /\ d = edist2 F (ptA A data i) q) /\
+  C17GenProofs.gdsorted A (oleb F) (map fst res) /\
+  (forall j : nat, (j < length data)%nat -> ~ In j (map snd res) ->
+   forall d : A, In d (map fst res) -> oleb F d (edist2 F (ptA A data j) q) = true).
+Proof. exact lc_query_k_nearest. Qed.
+Print Assumptions C17_lc_query_k_nearest.
+
+(* KHC-tree with any kernel satisfying KPos / KCS: k nearest w.r.t. the kernel-induced metric (after repair 3259cc98 the
+   leaf distances are measured in that metric) *)
+Theorem C17_khc_query_k_nearest :
+  forall (A : Type) (F : fops A), olaws F ->
+  forall (k : apoint A -> apoint A -> A) (dom : apoint A -> Prop) (data : list (apoint A))
+         (t : ptree (khcnode A)) (q : apoint A) (kk : nat),
+  KPos A F k dom -> KCS A F k dom ->
+  (forall i : nat, (i < length data)%nat -> dom (ptA A data i)) -> dom q ->
+  pwf_treeb A F (khcnode A) (khc_funct A F k data) (kh_thr A) data t = true ->
+  pnodes_forallb (khcnode A) (khc_nodeb A F k data) t = true ->
+  Permutation (pindices (khcnode A) t) (seq 0 (length data)) -> (kk <= length data)%nat ->
+  let res := khc_query A F k data t q kk in
+  length res = kk /\
+  NoDup (map snd res) /\
+  (forall (d : A) (i : nat), In (d, i) res -> (i < length data)%nat /\ d = kd2 A F k (ptA A data i) q) /\
+  C17GenProofs.gdsorted A (oleb F) (map fst res) /\
+  (forall j : nat, (j < length data)%nat -> ~ In j (map snd res) ->
+   forall d : A, In d (map fst res) -> oleb F d (kd2 A F k (ptA A data j) q) = true).
+Proof. exact khc_query_k_nearest. Qed.
+Print Assumptions C17_khc_query_k_nearest.
+
+(* the hypotheses are satisfiable: Qc is an ordered field; a concrete LC tree and KHC tree (duplicates in a leaf) *)
+Theorem C17_qc_ordered_field : forall sq : Qcanon.Qc -> Qcanon.Qc, olaws (qc_fops sq).
+Proof. exact qc_olaws. Qed.
+Print Assumptions C17_qc_ordered_field.
+
+Theorem C17_lc_hypotheses_satisfiable :
+  uniformA Qcanon.Qc 2 ex_data /\
+  pwf_treeb Qcanon.Qc exF (lcnode Qcanon.Qc) (lc_funct Qcanon.Qc exF) (lc_thr Qcanon.Qc) ex_data ex_lc = true /\
+  pnodes_forallb (lcnode Qcanon.Qc) (lc_unitb Qcanon.Qc exF) ex_lc = true /\
+  Permutation (pindices (lcnode Qcanon.Qc) ex_lc) (seq 0 (length ex_data)) /\
+  show (lc_query Qcanon.Qc exF ex_data ex_lc (zpt [1; 1]) 5) =
+    [(2#1, 0%nat); (13#1, 1%nat); (29#1, 3%nat); (74#1, 4%nat); (74#1, 2%nat)]%Q /\
+  map (@Qcanon.this) (pbounds Qcanon.Qc exF (lcnode Qcanon.Qc) (lc_funct Qcanon.Qc exF) (lc_thr Qcanon.Qc) (zpt [1; 1]) [] ex_lc) =
+    [0#1; 0#1; 0#1; 729#100; 121#100; 121#100; 3721#100]%Q.
+Proof. exact lc_example. Qed.
+Print Assumptions C17_lc_hypotheses_satisfiable.
+
+Theorem C17_khc_hypotheses_satisfiable :
+  (forall i, (i < length ex_data)%nat -> dimdom Qcanon.Qc 2 (ptA Qcanon.Qc ex_data i)) /\
+  pwf_treeb Qcanon.Qc exF (khcnode Qcanon.Qc) (khc_funct Qcanon.Qc exF (lin_k Qcanon.Qc exF) ex_data) (kh_thr Qcanon.Qc) ex_data ex_khc = true /\
+  pnodes_forallb (khcnode Qcanon.Qc) (khc_nodeb Qcanon.Qc exF (lin_k Qcanon.Qc exF) ex_data) ex_khc = true /\
+  show (khc_query Qcanon.Qc exF (lin_k Qcanon.Qc exF) ex_data ex_khc (zpt [1; 1]) 5) =
+    [(2#1, 0%nat); (13#1, 1%nat); (29#1, 3%nat); (74#1, 4%nat); (74#1, 2%nat)]%Q.
+Proof. exact khc_example. Qed.
+Print Assumptions C17_khc_hypotheses_satisfiable.
+
+(* ======================================================================================================== *)
+(* Extension: CONSTRUCTION of the projection trees (definitions: C17ProjBuild.v).  Two explicit oracles: the result of
+   std::nth_element (any rearrangement with the median property, aoracle_ok) and the choice of the two anchor points
+   (any choice with choose_ok: two points of the cell, at non-zero distance whenever the cell holds two points at
+   non-zero distance); sqrt_ok x : 0 < x -> sqrt x * sqrt x = x for the squared anchor distances it is applied to. *)
+
+(* BinaryTree::splitList on a range with two different keys: both parts non-empty, a rearrangement, left keys <=
+   threshold <= right keys (threshold = 0.5*(max left + min right)) *)
+Theorem C17_proj_split_list_spec :
+  forall (A : Type) (F : fops A), olaws F ->
+  forall (oracle : list (akv A) -> list (akv A)) (range : list (akv A)) (thr : A) (Lp Rp : list (akv A)),
+  anth_spec A F range (oracle range) -> (2 <= length range)%nat ->
+  (exists x y : akv A, In x range /\ In y range /\ oleb F (fst y) (fst x) = false) ->
+  asplit_list A F oracle range = (thr, Lp, Rp) ->
+  Lp <> nil /\ Rp <> nil /\ Permutation range (Lp ++ Rp) /\
+  (forall x : akv A, In x Lp -> oleb F (fst x) thr = true) /\
+  (forall y : akv A, In y Rp -> oleb F thr (fst y) = true).
+Proof. exact asplit_list_spec. Qed.
+Print Assumptions C17_proj_split_list_spec.
+
+(* duplicate-heavy data (repair bfc526b8): when all projected values are equal splitList returns begin (empty left part),
+   so buildTree makes the node a leaf instead of recursing on the same points *)
+Theorem C17_proj_split_all_equal_is_leaf :
+  forall (A : Type) (F : fops A), olaws F ->
+  forall (oracle : list (akv A) -> list (akv A)) (range : list (akv A)) (thr : A) (Lp Rp : list (akv A)),
+  Permutation range (oracle range) -> (2 <= length range)%nat ->
+  (forall x y : akv A, In x range -> In y range -> fst x = fst y) ->
+  asplit_list A F oracle range = (thr, Lp, Rp) -> Lp = nil.
+Proof. exact asplit_list_all_equal. Qed.
+Print Assumptions C17_proj_split_all_equal_is_leaf.
+
+(* termination: the recursion of buildTree never uses up its depth budget, duplicates or not (children are strictly
+   smaller or the node is a leaf) *)
+Theorem C17_proj_build_depth_limit_unreached :
+  forall (A : Type) (F : fops A) (P N : Type) (prep : nat -> nat -> P) (key : P -> nat -> A) (mk : P -> A -> N)
+         (choose : list nat -> nat * nat) (oracle : list (akv A) -> list (akv A)),
+  aoracle_ok A F oracle ->
+  forall (f1 f2 : nat) (elems : list nat), (length elems <= f1)%nat -> (length elems <= f2)%nat ->
+  pbuild A F P N prep key mk choose oracle f1 elems = pbuild A F P N prep key mk choose oracle f2 elems.
+Proof. exact pbuild_fuel_enough. Qed.
+Print Assumptions C17_proj_build_depth_limit_unreached.
+
+(* LCTree::buildTree: well-formed (cells, 1-Lipschitz funct = unit normal, leaves hold points at distance zero = copies
+   of one point) and the leaves partition 0..n-1 *)
+Theorem C17_lc_build_wellformed :
+  forall (A : Type) (F : fops A), olaws F ->
+  forall (dim : nat) (data : list (apoint A)), uniformA A dim data ->
+  forall (choose : list nat -> nat * nat) (oracle : list (akv A) -> list (akv A)),
+  (forall a b : nat, sqrt_ok A F (lc_d2 A F data a b)) ->
+  choose_ok A F (fun i : nat => dimdom A dim (ptA A data i)) (lc_d2 A F data) choose ->
+  aoracle_ok A F oracle -> data <> nil ->
+  PWF A F (lcnode A) (lc_funct A F) (lc_thr A) (edist2 F) (dimdom A dim) data nil (lc_build A F data choose oracle) /\
+  Permutation (pindices (lcnode A) (lc_build A F data choose oracle)) (seq 0 (length data)).
+Proof. exact lc_build_wellformed. Qed.
+Print Assumptions C17_lc_build_wellformed.
+
+Theorem C17_lc_build_then_query_correct :
+  forall (A : Type) (F : fops A), olaws F ->
+  forall (dim : nat) (data : list (apoint A)), uniformA A dim data ->
+  forall (choose : list nat -> nat * nat) (oracle : list (akv A) -> list (akv A)),
+  (forall a b : nat, sqrt_ok A F (lc_d2 A F data a b)) ->
+  choose_ok A F (fun i : nat => dimdom A dim (ptA A data i)) (lc_d2 A F data) choose ->
+  aoracle_ok A F oracle ->
+  forall (q : list A) (k : nat), data <> nil -> length q = dim -> (k <= length data)%nat ->
+  let res := lc_query A F data (lc_build A F data choose oracle) q k in
+  length res = k /\
+  NoDup (map snd res) /\
+  (forall (d : A) (i : nat), In (d, i) res -> (i < length data)%nat /\ d = edist2 F (ptA A data i) q) /\
+  C17GenProofs.gdsorted A (oleb F) (map fst res) /\
+  (forall j : nat, (j < length data)%nat -> ~ In j (map snd res) ->
+   forall d : A, In d (map fst res) -> oleb F d (edist2 F (ptA A data j) q) = true).
+Proof. exact lc_build_then_query_correct. Qed.
+Print Assumptions C17_lc_build_then_query_correct.
+
+(* KHCTree::buildTree with any symmetric kernel satisfying KPos / KCS *)
+Theorem C17_khc_build_wellformed :
+  forall (A : Type) (F : fops A), olaws F ->
+  forall (k : apoint A -> apoint A -> A) (dom : apoint A -> Prop) (data : list (apoint A)),
+  KPos A F k dom -> KCS A F k dom -> (forall x y : apoint A, dom x -> dom y -> k x y = k y x) ->
+  (forall i : nat, (i < length data)%nat -> dom (ptA A data i)) ->
+  forall (choose : list nat -> nat * nat) (oracle : list (akv A) -> list (akv A)),
+  (forall a b : nat, sqrt_ok A F (khc_d2 A F k data a b)) ->
+  choose_ok A F (fun i : nat => dom (ptA A data i)) (khc_d2 A F k data) choose ->
+  aoracle_ok A F oracle -> data <> nil ->
+  PWF A F (khcnode A) (khc_funct A F k data) (kh_thr A) (kd2 A F k) dom data nil (khc_build A F k data choose oracle) /\
+  Permutation (pindices (khcnode A) (khc_build A F k data choose oracle)) (seq 0 (length data)).
+Proof. exact khc_build_wellformed. Qed.
+Print Assumptions C17_khc_build_wellformed.
+
+Theorem C17_khc_build_then_query_correct :
+  forall (A : Type) (F : fops A), olaws F ->
+  forall (k : apoint A -> apoint A -> A) (dom : apoint A -> Prop) (data : list (apoint A)),
+  KPos A F k dom -> KCS A F k dom -> (forall x y : apoint A, dom x -> dom y -> k x y = k y x) ->
+  (forall i : nat, (i < length data)%nat -> dom (ptA A data i)) ->
+  forall (choose : list nat -> nat * nat) (oracle : list (akv A) -> list (akv A)),
+  (forall a b : nat, sqrt_ok A F (khc_d2 A F k data a b)) ->
+  choose_ok A F (fun i : nat => dom (ptA A data i)) (khc_d2 A F k data) choose ->
+  aoracle_ok A F oracle ->
+  forall (q : apoint A) (kk : nat), data <> nil -> dom q -> (kk <= length data)%nat ->
+  let res := khc_query A F k data (khc_build A F k data choose oracle) q kk in
+  length res = kk /\
+  NoDup (map snd res) /\
+  (forall (d : A) (i : nat), In (d, i) res -> (i < length data)%nat /\ d = kd2 A F k (ptA A data i) q) /\
+  C17GenProofs.gdsorted A (oleb F) (map fst res) /\
+  (forall j : nat, (j < length data)%nat -> ~ In j (map snd res) ->
+   forall d : A, In d (map fst res) -> oleb F d (kd2 A F k (ptA A data j) q) = true).
+Proof. exact khc_build_then_query_correct. Qed.
+Print Assumptions C17_khc_build_then_query_correct.
+
+(* the choice of the anchors AS CODED (calculateNormal on the sample of at most CuttingAccuracy points, first strict
+   maximum; for a degenerate sample the first point and the point farthest from it, repair c6ff0316) is admissible *)
+Theorem C17_lc_coded_choice_admissible :
+  forall (A : Type) (F : fops A), olaws F ->
+  forall (dim : nat) (data : list (apoint A)) (ca : nat), ca <> 0%nat ->
+  (forall a b : nat, sqrt_ok A F (lc_d2 A F data a b)) ->
+  choose_ok A F (fun i : nat => dimdom A dim (ptA A data i)) (lc_d2 A F data) (lc_coded_choose A F ca data).
+Proof. exact lc_coded_choose_ok. Qed.
+Print Assumptions C17_lc_coded_choice_admissible.
+
+Theorem C17_khc_coded_choice_admissible :
+  forall (A : Type) (F : fops A), olaws F ->
+  forall (k : apoint A -> apoint A -> A) (dom : apoint A -> Prop) (data : list (apoint A)) (ca : nat), ca <> 0%nat ->
+  KPos A F k dom -> KCS A F k dom -> (forall x y : apoint A, dom x -> dom y -> k x y = k y x) ->
+  choose_ok A F (fun i : nat => dom (ptA A data i)) (khc_d2 A F k data) (khc_coded_choose A F k ca data).
+Proof. exact khc_coded_choose_ok. Qed.
+Print Assumptions C17_khc_coded_choice_admissible.
+
+(* sorting is an admissible std::nth_element; the executable check run on every recorded result is sound *)
+Theorem C17_proj_sort_oracle_admissible :
+  forall (A : Type) (F : fops A), olaws F -> aoracle_ok A F (aksort A F).
+Proof. exact aksort_oracle_ok. Qed.
+Print Assumptions C17_proj_sort_oracle_admissible.
+
+Theorem C17_proj_nth_check_sound :
+  forall (A : Type) (F : fops A) (mp : nat) (r : list (akv A)), amedian_okb A F mp r = true -> amedian_prop A F mp r.
+Proof. exact amedian_okb_sound. Qed.
+Print Assumptions C17_proj_nth_check_sound.
+
+(* all hypotheses at once: Qc with a square root of the squares 0..144, one-dimensional data with duplicates *)
+Theorem C17_lc_build_hypotheses_satisfiable :
+  uniformA Qcanon.Qc 1 ex1_data /\ ex1_data <> nil /\
+  (forall a b, sqrt_ok Qcanon.Qc exF1 (lc_d2 Qcanon.Qc exF1 ex1_data a b)) /\
+  aoracle_ok Qcanon.Qc exF1 (aksort Qcanon.Qc exF1) /\
+  choose_ok Qcanon.Qc exF1 (fun i => dimdom Qcanon.Qc 1 (ptA Qcanon.Qc ex1_data i)) (lc_d2 Qcanon.Qc exF1 ex1_data)
+            (lc_coded_choose Qcanon.Qc exF1 25 ex1_data) /\
+  pindices (lcnode Qcanon.Qc) (lc_build Qcanon.Qc exF1 ex1_data (lc_coded_choose Qcanon.Qc exF1 25 ex1_data) (aksort Qcanon.Qc exF1))
+    = [0; 4; 1; 2; 5; 3]%nat /\
+  show (lc_query Qcanon.Qc exF1 ex1_data
+          (lc_build Qcanon.Qc exF1 ex1_data (lc_coded_choose Qcanon.Qc exF1 25 ex1_data) (aksort Qcanon.Qc exF1)) (zpt [3]) 4) =
+    [(1#1, 1%nat); (1#1, 2%nat); (1#1, 5%nat); (4#1, 4%nat)]%Q.
+Proof. exact lc_build_example. Qed.
+Print Assumptions C17_lc_build_hypotheses_satisfiable.
